@@ -109,6 +109,8 @@ def poracleOfSexp : Sexp → Option POracleTable
           | .list [.str c, q] => (quantOfSexp q).map fun q => (c, q)
           | _ => none
         pure { t with qs := (text, .valid (← n.nat?) caps) :: t.qs }
+      | .list [.atom "q", .str text, .list [.atom "binding-panic"]] =>
+        pure { t with qs := (text, .bindingPanic) :: t.qs }
       | .list [.atom "q", .str text, .list [.atom "invalid", r, c, o]] => do
         pure { t with qs := (text, .invalid (← r.nat?) (← c.nat?) (← o.nat?)) :: t.qs }
       | .list [.atom "r", .str p, b] => do pure { t with rs := (p, ← b.bool?) :: t.rs }
